@@ -192,7 +192,7 @@ def op_alphabet():
         for n in NAMES: ops.append(('pkg', n, c))
     for c in ('c1', 'c2'):
         for ns in (('aa.bb', 'dd'), ('dd', 'aa'), ('aa.bb.cc', 'aa.bb')): ops.append(('pkgs', ns, c))
-    for c in ('c1', 'c2'): ops.append(('with', c)); 
+    for c in ('c1', 'c2', 'c1skip'): ops.append(('with', c))
     ops.append(('exit',))
     return ops
 
@@ -263,13 +263,15 @@ def run_history(hist):
                     try: cm.__enter__(); raised = False
                     except BeartypeClawHookException: raised = True
                     if not raised:
-                        cms.append((cm, saved)); m.stack.append(saved); m.all = op[1]
+                        cms.append((cm, saved + (op[1],))); m.stack.append(saved); m.all = op[1]; m.skip |= set(skipnames(op[1]))      # the block's own skip list applies inside the block
                 elif op[0] == 'exit':
                     if not cms: continue
-                    cm, saved = cms.pop(); cm.__exit__(None, None, None)
+                    cm, saved = cms.pop(); cm.__exit__(None, None, None); cm_conf = saved[4]
                     # leaving a beartyping() block restores the state the block itself changed (the beartype_all configuration and the path
                     # hook); registrations the body made through other API calls are operations of the history in their own right and persist
                     m.all = saved[0]
+                    # "restores exactly the state that preceded it": the names the block's own configuration skipped are skipped no longer (skips registered by other calls inside the block persist)
+                    m.skip = (m.skip - set(skipnames(cm_conf))) | saved[2]
                     hook_now = claw_state.beartype_path_hook is not None
                     if hook_now and not m.hooked() and not saved[3]:
                         return f'step {step} {op}: path hook still installed after leaving beartyping() although nothing remains registered'
@@ -342,5 +344,7 @@ def classify(h, msg):
     if 'after leaving beartyping()' in msg: return 'beartyping_exit_keeps_path_hook'
     if 'path hook not installed' in msg: return 'path_hook_missing_while_registered'
     kinds = '+'.join(sorted({o[0] for o in h}))
-    if 'exit' in kinds and ('expected' in msg): return 'beartyping_exit_does_not_restore'
+    if 'exit' in kinds and ('expected' in msg):
+        if any(o[0] == 'with' and 'skip' in o[1] for o in h): return 'beartyping_exit_does_not_restore_skip_list'
+        return 'beartyping_exit_does_not_restore'
     return 'view_mismatch.' + kinds
